@@ -15,9 +15,9 @@ import (
 // Key is a deterministic account key. Keys depend only on (role, index), never on the
 // run seed, so replay files stay valid when the generator changes.
 type Key struct {
-	Role string
-	Idx  int
-	Priv *ethsecp256k1.PrivKey
+	Role  string
+	Idx   int
+	Priv  *ethsecp256k1.PrivKey
 	ECDSA *ecdsa.PrivateKey
 }
 
@@ -32,11 +32,11 @@ func NewKey(role string, idx int) *Key {
 	}
 }
 
-func (k *Key) Acc() sdk.AccAddress  { return sdk.AccAddress(k.Priv.PubKey().Address()) }
-func (k *Key) Hex() common.Address  { return common.BytesToAddress(k.Priv.PubKey().Address()) }
-func (k *Key) Bech() string         { return k.Acc().String() }
-func (k *Key) Val() sdk.ValAddress  { return sdk.ValAddress(k.Priv.PubKey().Address()) }
-func (k *Key) Name() string         { return fmt.Sprintf("%s%d", k.Role, k.Idx) }
+func (k *Key) Acc() sdk.AccAddress { return sdk.AccAddress(k.Priv.PubKey().Address()) }
+func (k *Key) Hex() common.Address { return common.BytesToAddress(k.Priv.PubKey().Address()) }
+func (k *Key) Bech() string        { return k.Acc().String() }
+func (k *Key) Val() sdk.ValAddress { return sdk.ValAddress(k.Priv.PubKey().Address()) }
+func (k *Key) Name() string        { return fmt.Sprintf("%s%d", k.Role, k.Idx) }
 
 // ConsKey is a deterministic validator consensus key.
 func ConsKey(idx int) ed25519.PrivKey {
